@@ -510,8 +510,8 @@ Proof. unfold become_pre_candidate. intros H. pstart H. psites. Qed.
 #[export] Hint Resolve become_pre_candidate_sites_ok : sites.
 
 Definition become_leader_sites : list N :=
-  [site_leader_from_follower; site_leader_persisted; site_self_progress; site_leader_noop_dropped]
-  ++ reset_sites ++ log_append_sites.
+  [site_leader_from_follower; site_self_progress; site_leader_noop_dropped]
+  ++ reset_sites ++ log_append_sites.   (* no persisted assertion since /repo 19c179c *)
 Lemma become_leader_sites_ok r s : become_leader r = Panic s -> In s become_leader_sites.
 Proof. unfold become_leader. intros H. pstart H. psites. Qed.
 #[export] Hint Resolve become_leader_sites_ok : sites.
